@@ -112,11 +112,13 @@ InitLoader == [rules |-> NoRules, frules |-> NoRules,
                dmt |-> [d \in Range(Dirs) |-> 0],
                path |-> FALSE]
 
-LoadRules(st0, fs, dirs, force, enforceNew) ==
+\* overwrite: the Enforcer's overwrite mode (TRUE is the default; FALSE merges
+\* what is read into the existing rule store instead of replacing it)
+LoadRulesOv(st0, fs, dirs, force, enforceNew, overwrite) ==
   LET \* 1. resolve the main file once
       st1 == IF ~st0.path /\ fs[MainFile].exists THEN [st0 EXCEPT !.path = TRUE] ELSE st0
       \* 2. main file through the mtime cache
-      m == IF st1.path THEN LoadPolicyFile(st1, MainFile, fs, force, TRUE) ELSE [st |-> st1, changed |-> FALSE]
+      m == IF st1.path THEN LoadPolicyFile(st1, MainFile, fs, force, overwrite) ELSE [st |-> st1, changed |-> FALSE]
       \* 3. directories
       forceDirs == force \/ m.changed \/ DirsUpdated(m.st, fs, dirs)
       st3 == [m.st EXCEPT !.dmt = NewDmt(m.st, fs, dirs)]
@@ -124,12 +126,13 @@ LoadRules(st0, fs, dirs, force, enforceNew) ==
       \* 4. rebuild from scratch when anything changed
       st4 == IF forceDirs /\ Len(ex) > 0
              THEN LET base == IF st3.path
-                              THEN (IF ~m.changed THEN LoadPolicyFile(st3, MainFile, fs, TRUE, TRUE).st ELSE st3)
-                              ELSE [st3 EXCEPT !.rules = NoRules, !.frules = NoRules]
+                              THEN (IF ~m.changed /\ overwrite THEN LoadPolicyFile(st3, MainFile, fs, TRUE, overwrite).st ELSE st3)
+                              ELSE (IF overwrite THEN [st3 EXCEPT !.rules = NoRules, !.frules = NoRules] ELSE st3)
                   IN WalkDirs(base, ex, 1, fs)
              ELSE st3
       \* 5. registered defaults for names still absent
   IN [st4 EXCEPT !.rules = MergeDefaults(st4.rules, st4.frules, 1, enforceNew)]
+LoadRules(st0, fs, dirs, force, enforceNew) == LoadRulesOv(st0, fs, dirs, force, enforceNew, TRUE)
 
 (***************************************************************************)
 (* Decisions: which single roles a name allows (references followed, an    *)
